@@ -132,7 +132,17 @@ def updater_lifecycle(tier, rnd):
                 pref.add(json.dumps(y[:i]))
         maximal = [json.loads(x) for x in ser if x not in pref]
         n = 20 if tier == "quick" else 400
-        pick = maximal if len(maximal) <= n else rnd.sample(maximal, n)
+        if len(maximal) <= n:
+            pick = maximal
+        else:
+            # half of the sample from the scripts that close and re-open the wallet under the updater, the ones that go on after the
+            # re-opening first
+            oc = [x for x in maximal if any(c["ev"] == "open" for c in x)]
+            oc.sort(key=lambda x: (-sum(1 for i, c in enumerate(x) if c["ev"] == "open" and i < len(x) - 1), rnd.random()))
+            cl = [x for x in maximal if any(c["ev"] == "close" for c in x) and x not in oc]
+            rest = [x for x in maximal if x not in oc and x not in cl]
+            pick = oc[:n // 3] + rnd.sample(cl, min(len(cl), n // 6))
+            pick += rnd.sample(rest, min(len(rest), n - len(pick)))
         build_harness(["replay_updater"])
         d = workdir("replay_updater")
         inp, outp = os.path.join(d, "in.json"), os.path.join(d, "events.ndjson")
